@@ -26,6 +26,10 @@ for t in targets:
         if mode == "seeded":
             for f in glob.glob(os.path.join(FZ, "corpus", name, "*")):
                 shutil.copy(f, work)
+            if t.get("seed_dir"):
+                for f in glob.glob(os.path.join(FZ, t["seed_dir"], "*")):
+                    if os.path.isfile(f):
+                        shutil.copy(f, work)
         art = os.path.join(FZ, "artifacts", name) + "/"
         shutil.rmtree(art, ignore_errors=True)
         os.makedirs(art)
@@ -35,7 +39,7 @@ for t in targets:
         for j in range(ncpu):
             cmd = [exe, f"-runs={runs}", f"-seed={seed * 1000 + j + 1}", "-len_control=0", f"-max_len={t['max_len']}",
                    "-rss_limit_mb=4096", "-malloc_limit_mb=1024", "-timeout=60", "-reload=1",
-                   f"-artifact_prefix={art}", "-print_final_stats=1", work]
+                   f"-artifact_prefix={art}", "-print_final_stats=1"] + ([f"-dict={os.path.join(FZ, t['dict'])}"] if t.get("dict") and os.path.exists(os.path.join(FZ, t["dict"])) else []) + [work]
             procs.append(subprocess.Popen(cmd, cwd=work, env=dict(env, VERIF_ROOT=ROOT), stdout=subprocess.PIPE, stderr=subprocess.STDOUT, text=True))
         logs = ""
         for pr in procs:
